@@ -7,11 +7,19 @@ d = f"/verif/seeded/{name}"; meta = json.load(open(f"{d}/meta.json")); pid = met
 import fcntl
 _lk = open("/tmp/verif_repo.lock", "w"); fcntl.flock(_lk, fcntl.LOCK_EX)
 assert not subprocess.run(["git", "-C", "/repo", "status", "--short"], capture_output=True, text=True).stdout.strip(), "/repo dirty"
+import glob, shutil, tempfile
+_keep = tempfile.mkdtemp(prefix="verif_ev_")   # evidence committed under /verif must come from the clean tree: put it back afterwards
+_ev = glob.glob(f"/verif/evidence/{pid}.*")
+for f in _ev:
+    shutil.copy2(f, _keep)
 subprocess.run(["git", "-C", "/repo", "apply", f"{d}/patch.diff"], check=True)
 try:
     r = subprocess.run(["./check", pid], cwd="/verif", capture_output=True, text=True, env=dict(os.environ, VERIF_LOCK_HELD="1"))
 finally:
     subprocess.run(["git", "-C", "/repo", "checkout", "--", "."], check=True)
+    for f in _ev:
+        shutil.copy2(os.path.join(_keep, os.path.basename(f)), f)
+    shutil.rmtree(_keep, ignore_errors=True)
 lines = [l[:300] for l in r.stdout.splitlines() if l.startswith(("VIOLATION", "UNDECIDED", "FAILED-OBLIGATION", "PASS", "KNOWN"))]
 meta.setdefault("history", []).append({"check_rc_with_patch": meta.get("check_rc_with_patch"), "detected": meta.get("detected"), "check_output": meta.get("check_output", "")[-600:]})
 meta.update(check_rc_with_patch=r.returncode, detected=(r.returncode == 1), check_output="\n".join(lines[:8]))
